@@ -1,6 +1,8 @@
 (* C02 — pinned statements. *)
+From Coq Require Import String.
 From Coq Require Import List NArith ZArith.
-From MV Require Import Common.Sx Common.Bytes Emf.Model Emf.ErrorNothing.
+From MV Require Import Common.Sx Common.Bytes Json.Json Json.Valid Json.Dec
+                       Emf.Model Emf.Spec Emf.ErrorNothing Emf.Refine Emf.DocsWf Emf.Reuse Emf.Content.
 Import ListNotations.
 
 (* When the formatter reports a validation error it has written nothing at all — for every configuration,
@@ -10,3 +12,75 @@ Theorem c02_error_writes_nothing :
     format c s mult e now ftab script = (s', RValidation msgs, out) -> out = [] /\ msgs <> [].
 Proof. exact format_validation_no_bytes. Qed.
 Print Assumptions c02_error_writes_nothing.
+
+(* Refinement: whenever the buffer mechanism reports success, the bytes it wrote are exactly the printed
+   documents of the reference interpretation, one per line, newline-terminated. *)
+Theorem c02_refine : forall c ns0 nss mult e now ftab s' out,
+  namespaces c = ns0 :: nss ->
+  format c (fresh c) mult e now ftab [] = (s', ROk, out) ->
+  out = concat (map (fun d => print d ++ [10%N]) (emf_docs c mult e now ftab)).
+Proof. exact format_prints_docs. Qed.
+Print Assumptions c02_refine.
+
+(* Validity: ... so the output is one or more complete lines, each a syntactically valid JSON object (derivable in
+   the RFC 8259 grammar) whose first member is the `_aws` metadata block — provided the float printer's texts
+   are JSON numbers (hypothesis on the oracle, checked per literal by the correspondence run). *)
+Definition emf_record (c : config) (d : json) : Prop :=
+  exists ts sets decls extra members,
+    d = JObj ((bs "_aws", aws_doc c ts (map (fun ns => directive_doc ns sets decls) (namespaces c) ++ extra)) :: members).
+
+Theorem c02_valid : forall c ns0 nss mult e now ftab s' out,
+  namespaces c = ns0 :: nss ->
+  floats_ok ftab mult e ->
+  format c (fresh c) mult e now ftab [] = (s', ROk, out) ->
+  exists docs, docs <> [] /\
+    out = concat (map (fun d => print d ++ [10%N]) docs) /\
+    Forall (fun d => value (print d) /\ emf_record c d) docs.
+Proof.
+  intros c ns0 nss mult e now ftab s' out Hns Hfl Hf.
+  exists (emf_docs c mult e now ftab). split; [|split].
+  - unfold emf_docs.
+    destruct (filter _ (a_sets (abuild c ftab mult e))) as [|x xs]; cbn [map app orb]; discriminate.
+  - exact (format_prints_docs c ns0 nss mult e now ftab s' out Hns Hf).
+  - apply Forall_forall. intros d Hd. split.
+    + apply print_compact. pose proof (emf_docs_wf c mult e now ftab Hfl) as W. rewrite Forall_forall in W. exact (W d Hd).
+    + destruct (docs_timestamp c mult e now ftab d Hd) as (sets & decls & extra & members & ->).
+      eexists _, _, _, _, _. reflexivity.
+Qed.
+Print Assumptions c02_valid.
+
+(* ... and this holds for every reachable formatter state, not only a fresh one (by C14). *)
+Theorem c02_refine_any_history : forall c s k s' out,
+  Reach c s -> format_call c s k = (s', ROk, out) ->
+  exists s'', format_call c (fresh c) k = (s'', ROk, out).
+Proof.
+  intros c s k s' out HR Hf. pose proof (history_free c s k HR) as [H1 H2].
+  rewrite Hf in H1, H2. cbn [fst snd] in H1, H2.
+  destruct (format_call c (fresh c) k) as [[s2 r2] o2]. cbn [fst snd] in *. subst. eexists. reflexivity.
+Qed.
+Print Assumptions c02_refine_any_history.
+
+(* the hand-rolled encoders: every byte string is printed as a valid JSON string token, every natural number as a
+   valid JSON number token *)
+Theorem c02_escape : forall s, value (print_str s).
+Proof. exact print_str_value. Qed.
+Print Assumptions c02_escape.
+Theorem c02_dec : forall n, number_text (render_dec n).
+Proof. exact render_dec_number. Qed.
+Print Assumptions c02_dec.
+
+(* every well-formed JSON value prints to text derivable in the grammar *)
+Theorem c02_printer_valid : forall j, wf j -> value (print j).
+Proof. exact print_compact. Qed.
+Print Assumptions c02_printer_valid.
+
+(* non-vacuity: an accepted split entry with two namespaces, a NaN in the middle of a distribution, escapes *)
+Example c02_example :
+  let c := mk_config false false false [bs "A"; bs "B"] [[bs "R"]] [] None false in
+  let e := [ITimestamp 1500000; IConfig CSplit; IValue (bs "R") (VString (bs "x""y"));
+            IValue (bs "m") (VMetric [OUnsigned 1; OFloat 9221120237041090560; OUnsigned 2] UNone [] FNone);
+            IValue (bs "d") (VMetric [OUnsigned 7] (UName (bs "Count")) [(bs "k", bs "v")] FHigh)] in
+  exists s' out, format c (fresh c) None e 0 [] [] = (s', ROk, out) /\
+                 out = concat (map (fun d => print d ++ [10%N]) (emf_docs c None e 0 [])) /\
+                 length (emf_docs c None e 0 []) = 2.
+Proof. cbv zeta. eexists _, _. split; [vm_compute; reflexivity | split; vm_compute; reflexivity]. Qed.
